@@ -20,7 +20,10 @@ EXPLANATION = (
     "function, generator, open file, module or a defaultdict with a non-importable factory. R17.2 nslc dumps result.IRModule "
     "with pickle to a file opened 'wb'; FilesystemModuleLoader opens 'rb' and pickle.loads, trying the given path before the "
     "'.nslir' sibling; nslr goes through that loader. R17.3 everything InstructionPrinter formats is read from fields of that "
-    "graph: no id()/hash(), and every IR type class that can be an instruction's type defines __str__."
+    "graph: no id()/hash(), and every IR type class that can be an instruction's type defines __str__. R17.4 nothing derived "
+    "from hash()/id() is stored. R17.5 the runner converts an argument to what the stored signature says. R17.6 the front end "
+    "writes the module the compiler returned: nothing is taken out of its Functions/Globals/Imports/Metadata tables between "
+    "compiling and writing, and no instance of a class defined in the script (pickled as __main__.X) is put into them."
 )
 NOT_DECIDED = "equality of listing and behaviour after reload (dynamic); cross-process class identity"
 ASSUMPTIONS = ["pickle protocol semantics of CPython 3.12 (default __reduce_ex__: copyreg.__newobj__ + instance __dict__)"]
@@ -257,6 +260,28 @@ def run(model, col, tier):
         col.check(not hits, "R17.4", f"{rel}:: stores nothing derived from hash()/id()", "no hash()/id() outside __hash__/__eq__",
                   (f"`{' '.join(unparse(hits[0]).split())[:70]}` (line {hits[0].lineno})" if hits else "") + ": the value differs from process to process, so what is written to a module file "
                   "(function names, keys) does not match what the loading process derives", rel, hits[0] if hits else fi.tree)
+    # ---------------- R17.6 the front end writes the module the compiler produced -----------------------
+    # (a) nothing is taken out of the module's tables between compiling and writing (= R16.8's removal rule, on the front
+    #     ends and the compiler driver); (b) no object of a class defined in the script itself (pickled as `__main__.X`, a
+    #     name the loading process does not have) is put into the module
+    from .c16 import table_removals
+
+    for rel in ("nslc.py", "nslr.py", "nsl/Compiler.py"):
+        fi = model.files.get(rel)
+        if fi is None:
+            raise AnchorMissing(rel)
+        hits = table_removals(fi.tree)
+        col.check(not hits, "R17.6", f"{rel}:: writes the module as compiled", "no del / pop / clear on the module's Functions, Globals, Imports or Metadata",
+                  (f"`{' '.join(unparse(hits[0][1]).split())[:80]}` takes entries out of `{hits[0][0]}`" if hits else "") + ": the file holds another module than the one the compiler "
+                  "returned (and lists / runs in-process)", rel, hits[0][1] if hits else fi.tree)
+    probe = ast.parse("import collections\nR = collections.namedtuple('R', 'a b')\ndef f(m):\n    rs = []\n    for n in m.Imports:\n        rs.append(R(n, 1))\n    m.Metadata['i'] = rs\n")
+    if len(_script_objects_stored(probe)) != 1:
+        raise AnalysisError("R17.6: the script-class detector does not fire on its positive example")
+    fi = model.files["nslc.py"]
+    hits = _script_objects_stored(fi.tree)
+    col.check(not hits, "R17.6", "nslc.py:: stores no object of a script-defined class in the module", "classes of the object graph live in importable modules",
+              (f"`{' '.join(unparse(hits[0][1]).split())[:70]}` stores an instance of `{hits[0][0]}`, defined in the script" if hits else "") + ": pickle records it as `__main__."
+              + (hits[0][0] if hits else "") + "`, which another process (nslr.py, an importer) cannot resolve - the module file does not load", "nslc.py", hits[0][1] if hits else fi.tree)
     # ---------------- R17.5 the runner hands the VM what the signature says -------------------------
     from ..miniev import CannotEval, ev
     from ..paths import paths
@@ -333,6 +358,63 @@ def _suffix_setting(model, call):
             d = defaults.get(n.value.id)
             return d.value if isinstance(d, ast.Constant) else None
     return None
+
+
+def _through_table(e):
+    from .c16 import MODULE_TABLES
+
+    return any(isinstance(n, ast.Attribute) and n.attr in MODULE_TABLES for n in ast.walk(e))
+
+
+def _script_objects_stored(tree):
+    """[(class name, statement)] stores of instances of classes defined in this script into something the function was
+    handed (a parameter, or an attribute / table reached from one): a small taint pass per function."""
+    defined = set()
+    for st in tree.body:
+        if isinstance(st, ast.ClassDef):
+            defined.add(st.name)
+        elif isinstance(st, ast.Assign) and isinstance(st.value, ast.Call) and last_attr(st.value) in ("namedtuple", "NamedTuple", "make_dataclass", "Enum", "IntEnum"):
+            defined |= {t.id for t in st.targets if isinstance(t, ast.Name)}
+    out = []
+    if not defined:
+        return out
+    scopes = [f for f in ast.walk(tree) if isinstance(f, (ast.FunctionDef, ast.AsyncFunctionDef))] + [tree]
+    for f in scopes:
+        tainted = {}
+
+        def dirty(e):
+            for n in ast.walk(e):
+                if isinstance(n, ast.Call) and isinstance(n.func, ast.Name) and n.func.id in defined:
+                    return n.func.id
+                if isinstance(n, ast.Name) and n.id in tainted:
+                    return tainted[n.id]
+            return None
+
+        body = list(ast.walk(f)) if f is not tree else [n for st in tree.body if not isinstance(st, (ast.FunctionDef, ast.ClassDef)) for n in ast.walk(st)]
+        for _ in range(4):
+            for n in body:
+                if isinstance(n, ast.Assign) and len(n.targets) == 1 and isinstance(n.targets[0], ast.Name) and dirty(n.value):
+                    tainted.setdefault(n.targets[0].id, dirty(n.value))
+                elif isinstance(n, ast.Call) and isinstance(n.func, ast.Attribute) and n.func.attr in ("append", "add", "extend", "insert", "update") and isinstance(n.func.value, ast.Name) \
+                        and any(dirty(a) for a in n.args):
+                    tainted.setdefault(n.func.value.id, next(dirty(a) for a in n.args if dirty(a)))
+        for n in body:
+            if isinstance(n, ast.Assign) and dirty(n.value):
+                for t in n.targets:
+                    if isinstance(t, (ast.Subscript, ast.Attribute)) and not (isinstance(t.value, ast.Name) and t.value.id in tainted):
+                        root = t
+                        while isinstance(root, (ast.Subscript, ast.Attribute)):
+                            root = root.value
+                        if isinstance(root, ast.Name) and root.id not in tainted and root.id != "self" and _through_table(t):
+                            out.append((dirty(n.value), n))
+            elif isinstance(n, ast.Call) and isinstance(n.func, ast.Attribute) and n.func.attr in ("append", "add", "extend", "insert", "update", "setdefault") \
+                    and isinstance(n.func.value, (ast.Attribute, ast.Subscript)) and any(dirty(a) for a in n.args):
+                root = n.func.value
+                while isinstance(root, (ast.Subscript, ast.Attribute)):
+                    root = root.value
+                if isinstance(root, ast.Name) and root.id not in tainted and root.id != "self" and _through_table(n.func.value):
+                    out.append((next(dirty(a) for a in n.args if dirty(a)), n))
+    return out
 
 
 def _identity_calls(tree):
